@@ -206,7 +206,8 @@ static std::string dec(const std::string& e)
 struct Case
 {
    int fmt = LP, mode = 0, gz = 0, names = 1, pre = 0, expValid = 0, twice = 0;
-   double cpu = 3.0;                    // CPU seconds allowed for the read itself
+   double cpu = 3.0;                    // user-CPU seconds allowed for the read itself
+   mutable double cpuOpt = 8.0;         // ... and for each optimize() of the post-read sequence (set from the input size)
    std::string file;                    // reference form: bytes of this file ...
    long trunc = -1;                     // ... cut to this length ...
    std::vector<std::pair<long, int>> subs;   // ... with these bytes substituted (also applies to inline data)
@@ -216,6 +217,12 @@ struct Case
    bool skip = false;
 
    std::string content() const
+   {
+      std::string d = content0();
+      cpuOpt = 8.0 + 60.0 * (double)d.size() / 1e6;
+      return d;
+   }
+   std::string content0() const
    {
       std::string d = data;
       if(!file.empty())
@@ -362,6 +369,7 @@ static std::string suffix_of(const Case& c, const Feat& f, int stage)
    if(c.mode && f.zeroDen && (c.fmt == LP || c.fmt == MPS)) s += "+zero-denominator";
    if(f.hugeExp && c.fmt != BAS) s += "+exponent>308";
    if(g_stage && (g_stage[1] & 1)) s += "+duplicate-matrix-entry";     // observed by the invariant check of this case
+   if(g_stage && (g_stage[1] & 2)) s += "+fixed-at-infinity";          // a column or row with lower == upper == +-infinity was read
    s += std::string("/stage=") + STAGE[stage < 9 ? stage : 0];
    return s;
 }
@@ -606,6 +614,7 @@ static void run_core(const Case& c, const Feat& ft, const char* path, const char
                double a = lp.lhs(i), b = lp.rhs(i);
                h = hd(hd(h, a), b);
                if(a != a || b != b) o.nonfinite++;
+               else if(a == b && fabs(a) >= 1e100 && g_stage) g_stage[1] |= 2;
                else if(a > b) o.lhsGtRhs++;   // only ever seen with literals beyond SoPlex's infinity (1e100): what the file states
                const SVectorBase<double>& r = lp.rowVector(i);
                for(int k = 0; k < r.size(); ++k) { h = hd(hi(h, r.index(k)), r.value(k)); if(!std::isfinite(r.value(k))) o.nonfinite++; }
@@ -616,6 +625,7 @@ static void run_core(const Case& c, const Feat& ft, const char* path, const char
                h = hd(hd(hd(h, a), b), cj);
                if(a != a || b != b || !std::isfinite(cj)) o.nonfinite++;
                else if(a > b) o.lowerGtUpper++;
+               else if(a == b && fabs(a) >= 1e100 && g_stage) g_stage[1] |= 2;
             }
             h = hi(h, (int)lp.spxSense());
          }
@@ -647,7 +657,9 @@ static void run_core(const Case& c, const Feat& ft, const char* path, const char
 
    // ---- fixed post-read sequence --------------------------------------------------------------------
    s->setIntParam(SoPlex::VERBOSITY, 0);
+   arm_cpu((g_on_valgrind ? 200 : 1) * c.cpuOpt);
    guarded(o, ST_OPT1, [&]() { o.st1 = (int)s->optimize(); });
+   disarm_cpu();
    h = hi(h, o.st1);
    if(c.fmt == BAS) check_final(o, *s, ST_OPT1, o.st1, true, "optimize after readBasisFile");
    else if(c.expValid && c.fmt != SET) check_final(o, *s, ST_OPT1, o.st1, true, "optimize after reading a valid variant");
@@ -660,7 +672,9 @@ static void run_core(const Case& c, const Feat& ft, const char* path, const char
       add_viol(o, ST_REREAD, "valid-file-rejected", "readFile(valid file) after the faulty read: ok=%d exc=%d dims %dx%d names %d/%d", (int)ok2, r2, s->numRows(), s->numCols(), rn2->num(), cn2->num());
    else
    {
+      arm_cpu((g_on_valgrind ? 200 : 1) * c.cpuOpt);
       int r3 = guarded(o, ST_OPT2, [&]() { o.st2 = (int)s->optimize(); });
+      disarm_cpu();
       h = hi(h, o.st2);
       if(r3 == 1 && c.fmt == SET && (ft.hasLimit || ft.hasReal)) {}   // tolerances / limits from the settings file: anything that is not a crash is acceptable
       else if(r3 == 1) add_viol(o, ST_OPT2, "valid-file-not-solved", "SPxException escaped from optimize() of the valid reference problem");
@@ -1033,7 +1047,8 @@ static uint64_t exec_case(const Case& c, Ctx& ctx, const std::string& outdir)
    {
       sig = "hang:cpu-limit";
       char b[240];
-      snprintf(b, sizeof b, "still in stage %s after %.2f s of user CPU time for the read (normal reads of such inputs take < 5 ms)", STAGE[stg < 9 ? stg : 0], c.cpu);
+      if(stg == ST_READ) snprintf(b, sizeof b, "reader still running after %.2f s of user CPU time (normal reads of such inputs take < 5 ms)", c.cpu);
+      else snprintf(b, sizeof b, "still in stage %s after %.1f s of user CPU time (a 3x3 LP solves in < 10 ms)", STAGE[stg < 9 ? stg : 0], c.cpuOpt);
       detail = b;
    }
    else if(signo == SIGALRM)
@@ -1192,7 +1207,7 @@ static std::string slurp(const std::string& p)
    std::ifstream in(p, std::ios::binary);
    return std::string((std::istreambuf_iterator<char>(in)), std::istreambuf_iterator<char>());
 }
-static double cpu_for(size_t bytes) { return 0.3 + 6.0 * (double)bytes / 1e6; }
+static double cpu_for(size_t bytes) { return 0.2 + 6.0 * (double)bytes / 1e6; }
 
 // ---------------------------------------------------------------------------------------------------
 // memcheck pass (uninitialised reads, which the sanitizer build does not see): the plain build of this harness executes a
@@ -1946,6 +1961,7 @@ int main(int argc, char** argv)
       }
    }
 
+   load_symbols();      // once, before the workers are forked
    std::string only = args.get("only");
    uint64_t stride = strtoull(args.get("stride", "1").c_str(), 0, 10);
    if(stride > 1) { rep.exhaustive = false; rep.notes.push_back("development run with --stride: not exhaustive"); }
@@ -2057,15 +2073,20 @@ int main(int argc, char** argv)
       }
    }
    rep.evaluations = rep.all.counters["reader_runs"] + rep.all.counters["memcheck.cases_executed"];
-   rep.rule = "case = (reader, read mode, container plain/gz, name sets passed or not, byte string); every member of the stated token-sequence, truncation and "
-              "substitution families is written to a file and read by the real reader through SoPlex::readFile / readBasisFile / loadSettingsFile, "
-              "followed by the fixed post-read sequence, at least twice (two different fills of the uninitialised stack). distinct_nontrivial = cases "
-              "executed (identity substitutions are skipped and not counted); evaluations = executions of the whole sequence";
+   rep.rule = "case = (reader, read mode, container plain/gz, name sets passed or not, byte string); every member of the stated token-sequence, truncation, "
+              "substitution and container-fault families is written to a file and read by the real reader through SoPlex::readFile / readBasisFile / "
+              "loadSettingsFile in a sanitizer build (ASan + UBSan), followed by the fixed post-read sequence numRows, numCols, optimize, clearLPReal, "
+              "readFile(valid file), optimize; the small families are executed with two different fills of the uninitialised stack, and every case whose "
+              "execution leaves the heap larger is repeated twice more (leak = growth in both repetitions); the short token sequences and the seed truncations "
+              "are executed once more under valgrind memcheck in a plain build. distinct_nontrivial = cases executed (identity substitutions and thinned gz "
+              "duplicates are skipped and not counted); evaluations = executions of the whole sequence";
    rep.assumptions = {"reference problem V and its optimum 15/2 at (3/2,1/2,3/2) are computed by hand; the valid LP and MPS files are written by the harness",
-                      "termination oracle: CPU-time limit of 0.3 s + 6 s/MB on truncation/substitution seeds, 0.5-3 s on generated files (normal reads take < 5 ms); replays use a ten times larger limit",
+                      "termination oracle: user-CPU-time limit of 0.2 s + 6 s/MB for a read of a truncation/substitution seed, 0.3-1 s for generated files (normal reads take < 5 ms), 8 s + 60 s/MB for each optimize(); replays use a ten times larger read limit",
                       "leak oracle: live heap bytes (sanitizer allocator statistics) must return to the starting value in the 2nd and 3rd execution of the same sequence",
-                      "uninitialised heap reads are not observable under the sanitizer allocator (it fills fresh blocks with a constant); uninitialised stack reads are observable only when they change the outcome",
-                      "settings files that mention a limit or a real-valued parameter may legitimately change the final solve; then only a sane status is required"
+                      "uninitialised reads: memcheck pass over the short sequences (input classes that crash or never return because of open defects are left out of that pass and counted); in the sanitizer pass uninitialised stack is observable only when it changes the outcome, uninitialised heap not at all",
+                      "a sanitizer report ends the case process at once (nothing is executed on corrupted memory); the signature carries the input features that are necessary for the defect (+line>8191, +eof-before-ENDATA, +zero-denominator, +exponent>308, +empty, +duplicate-matrix-entry, +fixed-at-infinity)",
+                      "settings files that mention a limit or a real-valued parameter may legitimately change the final solve; then only a sane status is required",
+                      "lower > upper, lhs > rhs and non-finite values that the file states literally are counted, not flagged"
                      };
    rep.finish(rep.all.counters["cases"] + rep.all.counters["memcheck.cases_executed"]);
    return 0;
